@@ -446,7 +446,59 @@ def run_parse(ctx, pid, run, idx, replay, BUILD, ROOT):
     return res
 
 
-RUNNERS = {"parse": run_parse, "bind": run_bind, "iter": run_iter, "cache": run_cache, "tx": run_tx}
+SCAN_RULE = ("statements with output expressions (all output forms x zoo types, optional inputs) run with Get on the fake driver; "
+             "the driver answers with one row whose columns are the generated aliases in a seeded permutation with foreign columns "
+             "interleaved, an alias missing / twice / out of range / in an unusual spelling, fewer columns, NULL cells; destinations "
+             "(pointer to struct, map, pointer to map; wrong forms) carry prior contents; observables: error class and the deep dump "
+             "of every destination afterwards; non-trivial iff distinct and the scan stage was reached")
+
+
+def run_scan(ctx, pid, run, idx, replay, BUILD, ROOT):
+    out = os.path.join(ctx.rundir, "scan%d" % idx)
+    os.makedirs(out, exist_ok=True)
+    cmd = [os.path.join(BUILD, "harness"), "scan", "-seed", str(ctx.seed + 1000 * idx), "-n", str(run["n"][ctx.tier]), "-out", out]
+    rc, log = sh(cmd, timeout=7200)
+    res = {"failing": [], "diffs": [], "coverage": {}}
+    if crashed(res, out, rc, log, pid):
+        return res
+    with open(os.path.join(out, "cases.txt")) as f:
+        cases = f.read()
+    rc, model = sh([os.path.join(BUILD, "modelrun")], inp=cases, timeout=3600)
+    open(os.path.join(out, "model.txt"), "w").write(model)
+    impl = open(os.path.join(out, "impl.txt")).read().splitlines()
+    model = model.splitlines()
+    cl = cases.splitlines()
+    proj = run.get("project", lambda l: l)
+    ndiff = 0
+    for i in range(min(len(impl), len(model))):
+        a, b = proj(impl[i]), proj(model[i])
+        if not same_bind_projection(a, b):
+            ndiff += 1
+            if len(res["diffs"]) < 20:
+                casefile = os.path.join(ctx.replaydir, "%s-scancase-%d.txt" % (pid, len(res["diffs"])))
+                open(casefile, "w").write(cl[i] + "\n")
+                res["diffs"].append({"correspondence": "scan model (coq/Model/Scan.v) vs ValidateOutputs / ScanArgs / LocateScanTarget / ScanProxy on database/sql",
+                                     "case_file": casefile, "implementation": a[:600], "model": b[:600]})
+    if len(impl) != len(model):
+        res["diffs"].append({"correspondence": "scan", "error": "result counts differ: impl %d model %d" % (len(impl), len(model))})
+    for l in open(os.path.join(out, "oracle.jsonl")):
+        v = json.loads(l)
+        if v["property"] in run.get("oracle_props", [pid]):
+            v["layer"] = "scan"
+            res["failing"].append(v)
+    st = json.load(open(os.path.join(out, "stats.json")))
+    res["coverage"] = {
+        "evaluations": st["cases"], "distinct_nontrivial": st["distinct_nontrivial"],
+        "programs": st["cases"], "disagreements_checked": ndiff,
+        "rule": SCAN_RULE, "samples": st["samples"][:5],
+        "input_distribution": {k: st[k] for k in ("result_kinds", "error_classes", "column_script_modes", "null_cells", "cells",
+                                                  "foreign_columns", "ok_with_permuted_columns", "unknown_error_wordings")},
+        "exhaustive": False,
+    }
+    return res
+
+
+RUNNERS = {"scan": run_scan, "parse": run_parse, "bind": run_bind, "iter": run_iter, "cache": run_cache, "tx": run_tx}
 
 
 def merge(a, b):
@@ -517,7 +569,13 @@ def tx_run_spec(oracle_props, compare=True, nq=400, nt=40000):
             "oracle_props": oracle_props, "compare": compare}
 
 
+def proj_scan_c18(line):
+    return line if line.startswith(("PANIC", "HANG")) else "RETURNED"
+
+
 PROPS = {
+    "C06": {"uses_genconsts": True, "trusted_extra": ["database/sql convertAssign for int64 / NULL sources specified in coq/Model/Scan.v (conv), validated by this run"],
+            "runs": [{"kind": "scan", "n": {"quick": 5000, "thorough": 200000}, "oracle_props": ["C06"]}]},
     "C12": {"runs": [tx_run_spec(["C12"])]},
     "C09": {"runs": [cache_run_spec(proj_cache_events, ["C09"]), tx_run_spec(["C09", "C12"], compare=False, nq=200)]},
     "C10": {"runs": [cache_run_spec(proj_cache_full, ["C10"])]},
